@@ -118,7 +118,73 @@ def gen_cases(rng, ctx):
     cases += gen_rp_cases(rng, thorough)
     # the request head the reverse proxy writes to the origin (encode_request) through the door
     cases += gen_wire_cases(rng, 60 if thorough else 20, responses=False)
+    cases += gen_dl_cases(rng, 400 if thorough else 60)
     return cases
+
+
+DL_HEAD = b"HTTP/1.1 200 OK\r\n\r\n"
+
+
+def gen_dl_cases(rng, n):
+    """The response side of the HTTP/1.1 codec (engine c18_dl): a scripted transport that takes a chosen number of bytes per run of
+    the listen loop, offers from the tunnel side, and listen futures dropped half way through a message."""
+    cases = []
+    fixed = [
+        [(1, 30), (0, 4), (1, 1), (2, 0), (1, 2), (0, 5), (3, 0)],            # dropped after one byte of four
+        [(1, 5), (2, 0), (1, 100), (0, 6), (0, 3), (1, 2), (2, 0), (3, 0)],  # the head itself cut by a drop; an offer handed back
+        [(0, 3), (1, 100), (0, 4), (1, 1), (2, 0), (0, 2)],                   # left open
+        [(1, 0), (2, 0), (3, 0)],                                             # taken with no room, dropped, closed
+        [(1, 19), (0, 40), (1, 0), (0, 7), (2, 0), (2, 0), (1, 39), (2, 0), (3, 0)],
+    ]
+    for k in range(n):
+        if k < len(fixed):
+            ops = fixed[k]
+        else:
+            ops = []
+            for _ in range(rng.range(3, 15)):
+                r = rng.below(100) / 100.0
+                if r < 0.35:
+                    ops.append((0, rng.choice([1, 2, 5, 17, 40, 300])))
+                elif r < 0.75:
+                    ops.append((1, rng.choice([0, 1, 2, 3, 7, 19, 20, 45, 400])))
+                else:
+                    ops.append((2, 0))
+            if rng.chance(85, 100):
+                ops.append((3, 0))
+        flat_ops = [x for op in ops for x in op]
+        li = line("c18_dl", [flat_ops, list(DL_HEAD)])
+        drops = sum(1 for o in ops if o[0] == 2)
+        cases.append(Case(li, li, kind="h1-download:%s%s" % ("closed" if ops and ops[-1][0] == 3 else "open", "-dropped-futures" if drops else ""),
+                          nontrivial=True, meta={"dl": True, "ops": ops}))
+    return cases
+
+
+def judge_dl(case, impl, model):
+    ops = case.meta["ops"]
+    what = "HTTP/1.1 response side, script %s" % " ".join("%s%s" % ("OPDC"[k], a if k < 2 else "") for k, a in ops)
+    if impl in ("999", "995", "997") or impl.startswith("997"):
+        return [("violation", "%s: the codec %s" % (what, {"999": "panicked", "995": "got stuck"}.get(impl, "answered with another head than HTTP/1.1 200 OK or refused the request")))]
+    t = impl.split()
+    offers, lens, wire, end = untok(t[0]), untok(t[1]), bytes(untok(t[2])), untok(t[3])[0]
+    # what the tunnel side was told had been accepted, from the answers the codec itself gave
+    accepted, counter, j = bytearray(DL_HEAD), 0, 0
+    for k, a in ops:
+        if k == 0:
+            if j < len(offers) and offers[j] == 1:
+                accepted += bytes(1 + (counter + i) % 251 for i in range(a))
+            counter += a
+            j += 1
+    out = []
+    if not bytes(accepted).startswith(wire):
+        n = next((i for i in range(min(len(wire), len(accepted))) if wire[i] != accepted[i]), min(len(wire), len(accepted)))
+        out.append(("violation", "%s: the client was sent %d bytes that are not a prefix of the %d accepted ones (they part at offset %d)" % (what, len(wire), len(accepted), n)))
+    elif any(b < a for a, b in zip(lens, lens[1:])):
+        out.append(("violation", "%s: bytes on the wire went %s" % (what, lens)))
+    elif ops and ops[-1][0] == 3 and (end != 1 or len(wire) != len(accepted)):
+        out.append(("violation", "%s: the response was ended in order and the client got %d of the %d bytes the codec had accepted (end %d)" % (what, len(wire), len(accepted), end)))
+    if not out and model is not None and impl != model:
+        out.append(("mismatch", "%s: the codec gave %s, the model %s" % (what, impl[:200], model[:200])))
+    return out
 
 
 FRONTS = {0: "HTTP/1.1 through the door", 1: "HTTP/1.1 over the real TLS listener", 3: "HTTP/3 over the real QUIC listener"}
@@ -255,6 +321,8 @@ def judge_rp(case, impl):
 def judge(case, impl, model, spec, ctx):
     if case.meta and case.meta.get("wire"):
         return judge_wire(case, impl, model, spec)
+    if case.meta and case.meta.get("dl"):
+        return judge_dl(case, impl, model)
     if impl == "999":
         return [("violation", "a service channel handler panicked on %s" % case.kind)]
     if impl == "996":
